@@ -499,7 +499,7 @@ int main(int argc, char** argv)
     "mandatory/optional taken from a table in the harness transcribed from the parser classes' attribs() declarations; X scanner grammar: every declaration of 4 attribute names as absent/optional/mandatory x every given subset; "
     "D2 (thorough) every pair of byte substitutions on the smallest seed; the same T/B/L families on the INI seeds. "
     "A case is non-trivial when the mutated text differs from the seed (hash = seed name + mutated text).";
-  spec.bounds_quick = "8 mesh seeds (0.36-1.1 KB: 1D/2D/3D, hypercube/simplex, mesh parts with none/full/parent topology, attribute, Circle/Bezier/Sphere/SurfaceMesh/Extrude charts, partitions) "
+  spec.bounds_quick = "13 mesh seeds (0.36-2.3 KB; 5 of them with mesh parts that hold cells: region with full topology, region without topology, patch-like part with deducted topology; 1D/2D/3D, hypercube/simplex, mesh parts with none/full/parent topology, attribute, Circle/Bezier/Sphere/SurfaceMesh/Extrude charts, partitions) "
     "and 3 INI seeds; byte alphabet of 14 bytes: < > / \" = space newline 0 9 - . x NUL 0xFF";
   spec.bounds_thorough = "as quick with all 256 byte values at every position, and depth-2 (pairs of substitutions over < \" space 0) on the smallest seed";
   spec.assumptions = {
@@ -521,7 +521,10 @@ int main(int argc, char** argv)
   const SD sds[] = {
     {"bezier_closed", "conformal:hypercube:2:2"}, {"partitions", "conformal:hypercube:2:2"}, {"edge1d", "conformal:hypercube:1:1"},
     {"extrude3d", "conformal:hypercube:3:3"}, {"tria2d", "conformal:simplex:2:2"}, {"quad2d", "conformal:hypercube:2:2"},
-    {"hexa3d", "conformal:hypercube:3:3"}, {"tetra3d", "conformal:simplex:3:3"}};
+    {"hexa3d", "conformal:hypercube:3:3"}, {"tetra3d", "conformal:simplex:3:3"},
+    // seeds whose mesh parts HOLD CELLS: a region with full topology, one without topology, a patch-like part with deducted topology
+    {"edge1d_cells", "conformal:hypercube:1:1"}, {"tria2d_cells", "conformal:simplex:2:2"}, {"quad2d_cells", "conformal:hypercube:2:2"},
+    {"tetra3d_cells", "conformal:simplex:3:3"}, {"hexa3d_cells", "conformal:hypercube:3:3"}};
   std::vector<SeedModel> seeds;
   for(auto& sd : sds)
   {
